@@ -1007,6 +1007,18 @@ def states_scenario(sc):
     check(m, dm_, rm_, "after merge", lazy=keep and early)
     check(oa, da, ra, "left operand after merge", lazy=keep and early)
     check(ob, db, rb, "right operand after merge")
+    # go on adding to an operand and to the merged result
+    if sc.get("postA"):
+        post = [tuple(i) for i in sc["postA"]]
+        fill(oa, post)
+        d2, r2 = split(post)
+        da, ra = da + d2, ra + r2
+        check(oa, da, ra, "operand: merge, more adds, read", lazy=keep and early)
+    if sc.get("postM"):
+        post = [tuple(i) for i in sc["postM"]]
+        fill(m, post)
+        d2, r2 = split(post)
+        check(m, dm_ + d2, rm_ + r2, "merged result: more adds, read", lazy=keep and early)
     return found
 
 
@@ -1044,7 +1056,9 @@ def states_checks(ctx, rng, ncases):
         p = gen_p(rng, na, nb, dyadic(Fr(na, na + nb)))
         sc = {"nt": nt, "ss": ss, "sf": sf, "keep": keep,
               "cls": rng.choice(["McResult", "MultiTrajResult"]), "ket": ket,
-              "A0": A0, "perm": perm, "extra": extra, "B": B, "p": p}
+              "A0": A0, "perm": perm, "extra": extra, "B": B, "p": p,
+              "postA": gen_items(1, 2) if rng.random() < 0.6 else None,
+              "postM": gen_items(1, 2) if rng.random() < 0.6 else None}
         sc = json.loads(json.dumps(sc, default=_cplx))
         ctx.count_case(("states", c, ss, sf, keep), nontrivial=True)
         found += states_scenario(sc)
@@ -1262,6 +1276,142 @@ def st_compare(im, mo, cstats):
     return None
 
 
+def st_oracle(case):
+    """The property itself on a stored-state history, from fractions: after
+    every operation and at every read, average_states / average_final_state
+    (when reported) are the weighted mean of exactly the trajectories added,
+    average_final_state is the last averaged state, a value is reported
+    whenever states (final states) are stored and sampled trajectories exist,
+    and merge leaves the reported values of its operands unchanged.
+    Returns (found, impl_observation)."""
+    I = StImpl(case)
+    ss, sf = case["ss"], case["sf"]
+    nt = case["nt"]
+    found = []
+    ens = []
+
+    def vec_of(tr):
+        v = [Fr(x) for x in st_mats_vec(tr["mats"])]
+        if "trace" in tr:
+            v = [x * fr(tr["trace"][q // ST_D]) for q, x in enumerate(v)]
+        return v
+
+    def bad(site, sig, what, k, idx, extra=None):
+        d = {"st_case": case, "kind": "stcase", "op": k, "obj": idx}
+        d.update(extra or {})
+        found.append((site, sig, what, d))
+
+    def expected(E):
+        n = nt * ST_D
+        out = []
+        for q in range(n):
+            a = sum((w * v[q] for w, v in E.det), Fr(0))
+            if E.rel:
+                a += sum((w * v[q] for w, v in E.rel), Fr(0)) / len(E.rel)
+            out.append(a)
+        return out
+
+    def check(k, idx, when, vals=None):
+        o = I.objs[idx]
+        E = ens[idx]
+        if E.empty():
+            return
+        sn = I.snap(o) if vals is None else vals
+        want = expected(E)
+        av, af = sn["avg_states"], sn["avg_final"]
+        if av[0] == 1 and not vec_eq(want, av[1], True):
+            bad("MultiTrajResult.average_states", "average-states-formula",
+                "average_states != weighted mean of the states added (%s)" % when, k, idx,
+                {"got": av[1][:ST_D], "want": [str(x) for x in want[:ST_D]]})
+        if af[0] == 1 and not vec_eq(want[-ST_D:], af[1], True):
+            bad("MultiTrajResult.average_final_state", "average-final-state-formula",
+                "average_final_state != weighted mean of the final states added (%s)" % when, k, idx,
+                {"got": af[1], "want": [str(x) for x in want[-ST_D:]]})
+        if av[0] == 1 and af[0] == 1 and any(
+                abs(x - y) > 1e-12 * max(1.0, abs(x)) for x, y in zip(av[1][-ST_D:], af[1])):
+            bad("MultiTrajResult.average_final_state", "final-not-last-averaged-state",
+                "average_final_state != average_states[-1] (%s)" % when, k, idx,
+                {"final": af[1], "last_state": av[1][-ST_D:]})
+        if av[0] == 2 or af[0] == 2:
+            bad("MultiTrajResult.average_states", "read-raises",
+                "reading the averaged states raised on a non-empty result (%s)" % when, k, idx)
+        if E.rel:
+            if ss and av[0] == 0:
+                bad("MultiTrajResult.average_states", "no-averaged-states",
+                    "store_states is set but average_states is None (%s)" % when, k, idx)
+            if (ss or sf) and af[0] == 0:
+                bad("MultiTrajResult.average_final_state", "no-averaged-final-state",
+                    "final states are stored but average_final_state is None (%s)" % when, k, idx)
+
+    for k, op in enumerate(case["ops"]):
+        if len(ens) != len(I.objs):
+            break
+        kind = op[0]
+        before = None
+        if kind == "merge" and 0 <= op[1] < len(I.objs) and 0 <= op[2] < len(I.objs):
+            before = [(j, I.snap(I.objs[j])) for j in sorted({op[1], op[2]})]
+        nread = len(I.reads)
+        code = I.step(op)
+        I.outcomes.append(code)
+        if kind == "new":
+            e = Ens()
+            e.hast = False
+            ens.append(e)
+        elif kind == "add" and code == 0:
+            ens[op[1]].rel.append((fr(op[3]), vec_of(op[2])))
+            check(k, op[1], "after add")
+        elif kind == "adddet" and code == 0:
+            ens[op[1]].det.append((fr(op[3]), vec_of(op[2])))
+            check(k, op[1], "after add_deterministic")
+        elif kind in ("rstates", "rfinal") and code == 0 and len(I.reads) > nread:
+            check(k, op[1], "after a read")
+        elif kind == "merge" and before is not None:
+            for j, sn in before:
+                after = I.snap(I.objs[j])
+                for f in ("avg_states", "avg_final"):
+                    if sn[f] != after[f]:
+                        bad("MultiTrajResult.merge", "merge-changes-operand-states",
+                            "merge changed the %s reported by an operand" % f, k, j)
+            if code == 0:
+                Ea, Eb = ens[op[1]], ens[op[2]]
+                pe = Fr(Ea.n(), Ea.n() + Eb.n())
+                pp = pe if op[3] is None else fr(op[3])
+                E = Ens()
+                E.det = [(w * pp, v) for w, v in Ea.det] + [(w * (1 - pp), v) for w, v in Eb.det]
+                E.rel = ([(w * pp / pe, v) for w, v in Ea.rel]
+                         + [(w * (1 - pp) / (1 - pe), v) for w, v in Eb.rel])
+                ens.append(E)
+                check(k, len(ens) - 1, "after merge")
+                check(k, op[1], "operand after merge")
+                check(k, op[2], "operand after merge")
+    obs = {"outcomes": I.outcomes, "objs": [I.snap(o) for o in I.objs]}
+    return found, obs
+
+
+
+def _stt(i, v):
+    return {"id": i, "mats": [[[315 * v, 0], [0, 315 * (4 - v)]]]}
+
+
+def _st_merge_then_add(ss, sf, keep):
+    """merge, then add / add_deterministic on an operand and on the merged
+    result, then read everything"""
+    ops = [["new", ss, sf, keep], ["add", 0, _stt(1, 1), [1, 1]], ["adddet", 0, _stt(2, 2), [1, 4]],
+           ["new", ss, sf, keep], ["add", 1, _stt(3, 3), [1, 1]],
+           ["merge", 0, 1, None],
+           ["add", 0, _stt(4, 4), [1, 1]], ["rfinal", 0], ["rstates", 0],
+           ["adddet", 1, _stt(5, 2), [1, 8]], ["rfinal", 1],
+           ["add", 2, _stt(6, 0), [1, 2]], ["rfinal", 2], ["rstates", 2],
+           ["adddet", 2, _stt(7, 1), [1, 8]], ["rstates", 2], ["rfinal", 2],
+           ["merge", 2, 0, [1, 4]], ["rfinal", 3], ["rstates", 3]]
+    return {"nt": 1, "ss": ss, "sf": sf, "ops": ops, "keep_mode": "T" if keep else "F", "ket": False,
+            "cls": "MultiTrajResult"}
+
+
+ST_CORPUS = [_st_merge_then_add(a, b, c) for a in (True, False) for b in (True, False)
+             for c in (False, True)]
+
+
 def st_gen_case(rng, big=False):
     nt = rng.choice([1, 2, 3])
     ss, sf = rng.random() < 0.6, rng.random() < 0.5
@@ -1315,6 +1465,15 @@ def st_gen_case(rng, big=False):
             ops.append(["merge", i, j, gen_p(rng, na, nb, True)])
             nums.append(na + nb)
             hast.append(True)
+            # often go on adding to an operand and / or to the merged result, then read
+            for tgt in (i, j, len(nums) - 1):
+                if rng.random() < 0.5:
+                    if rng.random() < 0.7:
+                        ops.append(["add", tgt, traj(), [1, 1] if rng.random() < 0.4 else gen_w(rng)])
+                        nums[tgt] += 1
+                    else:
+                        ops.append(["adddet", tgt, traj(), [rng.randint(1, 8), 16]])
+                    ops.append([rng.choice(["rfinal", "rstates"]), tgt])
         elif len(nums) < 6:
             new()
     return {"nt": nt, "ss": ss, "sf": sf, "ops": ops, "keep_mode": keep_mode, "ket": ket,
@@ -1987,8 +2146,16 @@ def run(ctx):
 
     ctx.log("oracles (free mode, metamorphic, states) done")
     # 4c. stored states: exact correspondence with Model/C15_st.v
-    scases = [st_gen_case(rng, big=not ctx.quick) for _ in range(70 if ctx.quick else 1500)]
-    simpls = [StImpl(c).run() for c in scases]
+    scases = [dict(c) for c in ST_CORPUS] + [st_gen_case(rng, big=not ctx.quick)
+                                             for _ in range(70 if ctx.quick else 1500)]
+    simpls = []
+    sfound = {}
+    for q, c in enumerate(scases):
+        fnd, obs = st_oracle(c)
+        simpls.append(obs)
+        sfound[q] = fnd
+        for site, sig, what, extra in fnd:
+            ctx.violation(site, sig, what, extra)
     try:
         svals = vlib.coq_eval_values("cases_C15_st", ST_HEADER, [st_cops(c) for c in scases], chunk=40)
     except RuntimeError as e:
@@ -1997,7 +2164,7 @@ def run(ctx):
         svals = []
     sdist = {"keep_mode": {}, "opts": {}, "merges_ok": 0, "reads": 0}
     smis = 0
-    for case, im, val in zip(scases, simpls, svals):
+    for q, (case, im, val) in enumerate(zip(scases, simpls, svals)):
         diff = st_compare(im, st_parse(val), cstats)
         ctx.cov["traces_validated_against_impl"] += 1
         km = case["keep_mode"]
@@ -2014,7 +2181,9 @@ def run(ctx):
                 ctx.violation("corr:multitrajresult.states", "model-differs:" + diff[0].split(".", 1)[-1],
                               "states model and implementation disagree on %s" % diff[0],
                               {"st_case": case, "field": diff[0], "impl": diff[1], "model": str(diff[2]),
-                               "kind": "stcorr"}, found_input=False)
+                               "kind": "stcase",
+                               "implementation_violates": [f[2] for f in sfound[q]][:3]},
+                              found_input=bool(sfound[q]))
     dist["states_corr"] = sdist
 
     ctx.log("states correspondence done")
@@ -2154,6 +2323,15 @@ def replay(ctx, payload):
             if site == payload["site"] and sig == payload["signature"]:
                 ctx.violation(site, sig, what, extra)
                 return
+        return
+    if d.get("kind") == "stcase" and "st_case" in d:
+        fnd, _ = st_oracle(d["st_case"])
+        for site, sig, what, extra in fnd:
+            if site == payload["site"] and sig == payload["signature"]:
+                ctx.violation(site, sig, what, extra)
+                return
+        for site, sig, what, extra in fnd[:1]:
+            ctx.violation(site, sig, what, extra)
         return
     if d.get("kind") == "states":
         for site, sig, what, extra in states_scenario(d["scenario"]):
